@@ -32,7 +32,7 @@ def expected(name, state, dest_present, emu):
 def run(ctx):
     rng = ctx.rng
     modes = drv.QUICK_MODES if ctx.quick else drv.ALL_MODES
-    sizes = [0, 1, 1024, 8193] if ctx.quick else [0, 1, 1023, 1024, 1025, 8191, 8192, 8193, gen.MIB + 1, 3 * gen.MIB]
+    sizes = [0, 1, 1023, 1024, 1025, 8193, 70000] if ctx.quick else [0, 1, 1023, 1024, 1025, 8191, 8192, 8193, gen.MIB + 1, 3 * gen.MIB]
     ctx.rule = ("case = (size, extraction entry point [copy/hard_link/reflink x key/hash x checked/unchecked, reflink "
                 "with and without emulated FICLONE], mode, destination absent/present(marker bytes), content state "
                 "pristine / one of the C01 damage classes / missing, key present/absent). After every call the "
